@@ -1149,6 +1149,11 @@ class XmlDocument(SubXmlBase):
         if self.validator is self.SOFT_VALIDATION and not (
                                         cls.validate_string(cls, element.text)):
             raise ValidationError(element.text)
+
+        if not (element.text in cls.__values__):
+            # not a member, whatever the validator setting is
+            raise ValidationError(element.text)
+
         return getattr(cls, element.text)
 
     def fault_from_element(self, ctx, cls, element):
